@@ -1,6 +1,6 @@
 """Configuration of ./check C08 (see cfg/README)."""
 
-PROP = {'modules': ['SfntV.Props.C08'],
+PROP = {'drive': ['Otl'], 'modules': ['SfntV.Props.C08'],
  'required_theorems': ['C08_cov_roundtrip', 'C08_cov_len', 'C08_cov_indices', 'C08_cov_minimal', 'C08_cov_order_independent',
                        'C08_classdef_roundtrip', 'C08_classdef_len', 'C08_classdef_refusal',
                        'C08_st_roundtrip_gsub1_1', 'C08_st_len_gsub1_1', 'C08_st_roundtrip_gsub1_2',
